@@ -84,7 +84,7 @@ impl Scenario for C08 {
     fn runs(&self, tier: Tier) -> u64 {
         match tier {
             Tier::Quick => 300_000,
-            Tier::Thorough => 20_000_000,
+            Tier::Thorough => 1_000_000_000,
         }
     }
 
@@ -134,7 +134,8 @@ impl Scenario for C08 {
             }
             12..=16 => {
                 spec.variant = "from_rng".into();
-                let k = rng.below(4) as usize;
+                // leading all-zero blocks: 0..5, occasionally 8 (a bounded redraw loop would give up)
+                let k = *rng.pick(&[0usize, 1, 1, 2, 2, 3, 4, 5, 8]);
                 let mut prefix = vec![0u8; k * n];
                 match rng.below(4) {
                     0 => {
@@ -214,7 +215,7 @@ impl Scenario for C08 {
             SeedSpec::U64(_) => (None, 0),
             SeedSpec::FromRng(s) | SeedSpec::TryFromRng(s) => {
                 let mut k = 0;
-                while k < 8 && s.bytes(k * n, n).iter().all(|x| *x == 0) {
+                while k < 16 && s.bytes(k * n, n).iter().all(|x| *x == 0) {
                     k += 1;
                 }
                 (Some(s.bytes(if kind == Kind::XorShift { k * n } else { 0 }, n)), k)
@@ -328,7 +329,7 @@ impl Scenario for C08 {
     }
 
     fn rule(&self) -> String {
-        "Each run: one of the 14 linear xoshiro-family types or XorShiftRng and one seeding route: from_seed with the all-zero / sparse (single set bit at every byte position, single non-zero word, leading word zero, only trailing bytes set) / dense seed; seed_from_u64 with edge values (0, -PHI, powers of two, ...) and random values; from_rng / try_from_rng over a SimSource that delivers k=0..3 leading all-zero blocks (fault zero_block) followed by a sparse, dense or hash-derived block; pairs of non-zero seeds at Hamming distance 1. Oracles: state image (bincode) never all-zero and outputs not all zero; zero seed == documented replacement (by == and by a probe history); source advanced by exactly one block (xoshiro family) resp. k+1 blocks (XorShiftRng); non-zero seeds used verbatim (state image == seed bytes, != replacement, == from_seed(first non-zero block)); distinct seeds => != generators. distinct_nontrivial = distinct (type, route, zero-block count, position of the only non-zero byte | first non-zero word | u64 route) signatures.".into()
+        "Each run: one of the 14 linear xoshiro-family types or XorShiftRng and one seeding route: from_seed with the all-zero / sparse (single set bit at every byte position, single non-zero word, leading word zero, only trailing bytes set) / dense seed; seed_from_u64 with edge values (0, -PHI, powers of two, ...) and random values; from_rng / try_from_rng over a SimSource that delivers k=0..5 or 8 leading all-zero blocks (fault zero_block) followed by a sparse, dense or hash-derived block; pairs of non-zero seeds at Hamming distance 1. Oracles: state image (bincode) never all-zero and outputs not all zero; zero seed == documented replacement (by == and by a probe history); source advanced by exactly one block (xoshiro family) resp. k+1 blocks (XorShiftRng); non-zero seeds used verbatim (state image == seed bytes, != replacement, == from_seed(first non-zero block)); distinct seeds => != generators. distinct_nontrivial = distinct (type, route, zero-block count, position of the only non-zero byte | first non-zero word | u64 route) signatures.".into()
     }
     fn assumptions(&self) -> Vec<String> {
         vec![
